@@ -205,16 +205,24 @@ def faulty(tk: int, opi: int, k: int, cx: int, x: int, y: int, z: int, v1: int) 
     r_lib = run_op(op, target, a_lib)
     hit = env.fs.fault_at < env.fs.ops
     env.fs.fault_at = None
+    retried = False
     if r_lib[0] == "exc":
-        return finish(False, True)  # the call did not return
+        if not hit or not isinstance(r_lib[1], OSError):
+            return finish(False, True)  # the call did not return (and not because of the fault)
+        # the caller retries the same call once the fault is gone: THAT call returns, so the
+        # mutation must be in the file (nothing may remember the failed attempt as done)
+        r_lib = run_op(op, target, ops.A(v=v1, w=v1, i=0, j=1))
+        retried = True
+        if r_lib[0] == "exc":
+            return finish(False, True)
     r_ref = run_ref(op, at(ref, path), a_ref)
     if r_ref[0] == "exc":
         return finish(False, True)
-    case(cls.__name__, f"depth{depth}", tkind, op.name, ctx, k if hit else "no-fault")
+    case(cls.__name__, f"depth{depth}", tkind, op.name, ctx, k if hit else "no-fault", "retried" if retried else "returned")
     want = plain(ref)
     got = fam.read(env, "r")
     if got is MISSING or not is_plain(got) or not same_tree(got, want):
-        return finish(True, fail(lambda: f"{cls.__name__} ({ctx}) depth {depth}: {op.name} returned normally although file-system operation #{k} of the call raised OSError; file holds {got!r}, reference {want!r} (fs log {env.fs.log[-6:]!r})"))
+        return finish(True, fail(lambda: f"{cls.__name__} ({ctx}) depth {depth}: {op.name} {'failed with OSError at file-system operation #' + str(k) + ', was retried and then returned normally' if retried else 'returned normally although file-system operation #' + str(k) + ' of the call raised OSError'}; file holds {got!r}, reference {want!r} (fs log {env.fs.log[-6:]!r})"))
     leftovers = [n for n in env.listdir() if n.startswith("._")]
     return finish(True, True)
 
